@@ -120,7 +120,7 @@ namespace
   Plume make_plume(const std::vector<unsigned> &d)
   {
     Plume p;
-    p.sph = d[7] == 1;
+    p.sph = d[7] == 1 || d[8] != 0;   // a longitude offset implies a spherical world (so that offset + moving centres is two deviations, not three)
     p.depths = {1e5, 3e5};
     const P2 C[3][2] = {{{{0,0}},{{0,0}}}, {{{0,0}},{{1,0}}}, {{{0,0}},{{1,1}}}};
     p.c = {C[d[0]][0], C[d[0]][1]};
@@ -204,7 +204,7 @@ namespace
     const double s = p.sph ? 1.0 : 1e5;
     bool any_in = false, any_out = false;
     for (int ix = -12; ix <= 12; ++ix) for (int iy = -12; iy <= 12; ++iy)
-        for (double depth : {0.0, 2.5e4, 5e4, 6e4, 7.5e4, 9.9e4, 1e5, 1.5e5, 2e5, 2.5e5, 3e5, 4e5, 4.5e5, 5e5, 6e5})
+        for (double depth : {0.0, 2.5e4, 5e4, 6e4, 7.5e4, 9.9e4, 1e5, 1.3e5, 1.5e5, 2e5, 2.3e5, 2.5e5, 3e5, 3.6e5, 4e5, 4.5e5, 5e5, 6e5})
           {
             const double x = 0.25*ix, y = 0.25*iy;
             const long double v = plume_form(p, x, y, depth);
